@@ -1298,6 +1298,10 @@ func (c *Compiler) writeNodeLC(node_ *node, v, fn string, depth int) error {
 
 	switch node_.typ {
 	case typeStruct:
+		if depth > 0 {
+			// The path may stop on a nested struct: nothing to measure then.
+			c.wl("if len(path) < ", strconv.Itoa(depth+1), " { return nil }")
+		}
 		for _, ch := range node_.chld {
 			if (ch.typ == typeBasic && ch.typu != "string") || !ch.hasc {
 				continue
